@@ -4,6 +4,6 @@ p=$(realpath $1); [ -d "$p" ] && p=$p/patch.diff
 pid=$2; b=${3:-30}
 git -C /repo apply "$p" || { echo "APPLY FAILED $p"; exit 3; }
 cd /verif && VERIF_BUDGET_S=$b ./check $pid --tier quick > /tmp/mut_$$.log 2>&1; rc=$?
-git -C /repo checkout -- . ; git -C /repo reset -q
+git -C /repo checkout -- . ; git -C /repo reset -q; git -C /repo clean -fdq jaxtyping  # patches may add files
 grep -E "VIOLATION|KNOWN-FINDING|HARNESS|oracle=|runs=" /tmp/mut_$$.log | cut -c1-600
 echo "MUTANT $1 $pid rc=$rc"; rm -f /tmp/mut_$$.log
